@@ -1,0 +1,28 @@
+//go:build verif
+
+package parser
+
+// This file is only compiled with the "verif" build tag. It exposes the
+// unexported type relations and the termination analysis to external
+// verification tooling and does not change behaviour.
+
+// VerifAccepts is t.accepts(t2).
+func VerifAccepts(t, t2 *Type) bool { return t.accepts(t2) }
+
+// VerifMatches is t.matches(t2).
+func VerifMatches(t, t2 *Type) bool { return t.matches(t2) }
+
+// VerifInfer is t.infer().
+func VerifInfer(t *Type) *Type { return t.infer() }
+
+// VerifFixedType is fixedType(t).
+func VerifFixedType(t *Type) *Type { return fixedType(t) }
+
+// VerifCombineTypes is combineTypes(types).
+func VerifCombineTypes(types []*Type) *Type { return combineTypes(types) }
+
+// VerifConcatType is concatType(l, r).
+func VerifConcatType(l, r *Type) *Type { return concatType(l, r) }
+
+// VerifAlwaysTerminates is alwaysTerms(n).
+func VerifAlwaysTerminates(n Node) bool { return alwaysTerms(n) }
